@@ -261,6 +261,38 @@ def run_cases(binary, cases, tag, shards=16, timeout=1200):
 
 # ------------------------------------------------------------- main logic
 
+def run_miri(cases, tag):
+    """run the harness on `cases` under Miri; returns stats and, if Miri reports undefined behaviour, the case it
+    was executing.  Infrastructure problems (no Miri, build failure, timeout) are recorded, never reported as violations."""
+    if not cases:
+        return {"stats": {"miri": "no cases in this tier"}}
+    rc, out = sh("cargo +nightly miri --version", cwd=os.path.join(ROOT, "harness"))
+    if rc != 0:
+        return {"stats": {"miri": "not available: " + out.strip()[-200:]}}
+    d = os.path.join(WORK, "cases")
+    os.makedirs(d, exist_ok=True)
+    fn = os.path.join(d, "%s.%d.miri.cases" % (tag, os.getpid()))
+    open(fn, "w").write("\n".join(cases) + "\n")
+    env = dict(os.environ, CARGO_NET_OFFLINE="true", CARGO_TARGET_DIR=os.path.join(WORK, "miri-target"),
+               MIRIFLAGS="-Zmiri-disable-isolation -Zmiri-ignore-leaks", HARNESS_CASE_TIMEOUT="900", RUSTFLAGS="--cfg flussab_verif -Awarnings")
+    try:
+        p = subprocess.run(["timeout", "2400", "cargo", "+nightly", "miri", "run", "--offline", "--", fn],
+                           cwd=os.path.join(ROOT, "harness"), env=env, stdout=subprocess.PIPE, stderr=subprocess.PIPE)
+    except Exception as e:  # pragma: no cover
+        return {"stats": {"miri": "could not run: %s" % e}}
+    os.unlink(fn)
+    lines = [l for l in p.stdout.decode("utf-8", "replace").split("\n") if l]
+    err = p.stderr.decode("utf-8", "replace")
+    m = re.search(r"error: Undefined Behavior: [^\n]*", err)
+    if m:
+        case = cases[len(lines)] if len(lines) < len(cases) else cases[-1]
+        return {"stats": {"miri": "undefined behaviour", "completed": len(lines)}, "ub": m.group(0)[:300], "case": case}
+    if p.returncode != 0 or len(lines) < len(cases):
+        return {"stats": {"miri": "infrastructure problem (rc=%s, %d of %d cases completed): %s"
+                                   % (p.returncode, len(lines), len(cases), err.strip()[-300:])}}
+    return {"stats": {"miri": "no undefined behaviour reported", "completed": len(lines)}}
+
+
 def load_known():
     p = os.path.join(ROOT, "known_findings.json")
     if not os.path.exists(p):
@@ -334,6 +366,8 @@ def main():
         n = st["thorough"] if args.tier == "thorough" else st["quick"]
         srng = random.Random(rng.getrandbits(64))
         cases = corpus_cases(st["name"]) + mod.gen(srng, n, args.tier, **st.get("args", {}))
+        if st.get("kind") == "miri":     # Miri is slow: a sample of exactly n cases
+            cases = srng.sample(cases, min(n, len(cases)))
         total_eval += len(cases)
         dist = {}
         for c in cases:
@@ -344,6 +378,15 @@ def main():
         stats[st["name"]] = {"cases": len(cases), "distribution": dist, "exhaustive": bool(st.get("exhaustive"))}
         samples += cases[:2] + cases[-1:]
         kind = st.get("kind", "corr")
+        if kind == "miri":
+            # supporting dynamic check (not a proof, not part of the correspondence): the same cases run on the real
+            # code under Miri, which reports real undefined behaviour (out-of-bounds access, use of uninitialised memory)
+            res = run_miri(cases, st["name"])
+            stats[st["name"]].update(res["stats"])
+            if res.get("ub"):
+                what = "miri %s: %s" % (st["name"], res["ub"])
+                violations.append((what, write_replay(prop, "input", what, [res["case"]], {"miri": res["ub"]}), True))
+            continue
         outs = {}
         profiles = st.get("profiles", ["debug"])
         for prof in profiles:
